@@ -34,16 +34,20 @@ def _dotted(node):
 
 
 # ----------------------------------------------------------------------------------------------- purity / simple exprs
-def is_pure_literal(node, depth=0):
-    """Expression whose value is fixed at definition time and has no side effects."""
+def is_pure_literal(node, depth=0, name_ok=None):
+    """Expression whose value is fixed at definition time and has no side effects.  name_ok(id) -> True for plain names that
+    denote a fixed object (a class of the program): a dispatch table {Enum.Member: SomeClass} is such a literal."""
     if depth > 6:
         return False
     if isinstance(node, ast.Constant):
         return True
     if isinstance(node, (ast.Tuple, ast.List, ast.Set)):
-        return all(is_pure_literal(e, depth + 1) for e in node.elts)
+        return all(is_pure_literal(e, depth + 1, name_ok) for e in node.elts)
     if isinstance(node, ast.Dict):
-        return all(k is not None and is_pure_literal(k, depth + 1) and is_pure_literal(v, depth + 1) for k, v in zip(node.keys, node.values))
+        return all(k is not None and is_pure_literal(k, depth + 1, name_ok) and is_pure_literal(v, depth + 1, name_ok)
+                   for k, v in zip(node.keys, node.values))
+    if isinstance(node, ast.Name) and name_ok is not None and depth > 0 and name_ok(node.id):
+        return True
     if isinstance(node, ast.UnaryOp):
         return is_pure_literal(node.operand, depth + 1)
     if isinstance(node, ast.BinOp):
@@ -299,8 +303,9 @@ class Canon(object):
                         for t in st.targets:
                             if isinstance(t, ast.Name):
                                 counts[t.id] = counts.get(t.id, 0) + 1
+                is_class = lambda n, _m=m: hasattr(self.prog.lookup(_m, n), 'mro')     # noqa: E731
                 for name, v in c.attrs.items():
-                    if name not in VOCAB_NAMES and counts.get(name, 1) == 1 and is_pure_literal(v) and name not in stored_attrs and \
+                    if name not in VOCAB_NAMES and counts.get(name, 1) == 1 and is_pure_literal(v, 0, is_class) and name not in stored_attrs and \
                             not (name.startswith('__') and name.endswith('__')):
                         cc[name] = v
                 self.cls_consts[c.key] = cc
